@@ -135,6 +135,10 @@ def run(ctx):
     ctx.rule("C11-apply", "apply spreads its last argument behind the leading ones, in order (table of the native procedure)")
     from . import evaltables as _et11
     _et11.rule_apply_native(ctx, "C11-apply")
+    # memq / memv / equal? are written in Scheme on top of the native eq? / eqv?: the table of that native procedure on the atomic kinds
+    ctx.rule("C11-eqv-kinds", "the native eqv? (which memq, memv and the leaves of equal? use) tells the atomic kinds apart: a symbol and "
+                              "a string with the same characters, a character and the integer of its code, are not the same object")
+    _et11.rule_eqv_kinds(ctx, "C11-eqv-kinds")
 
     def _old_shape_rules():
         # ------------------------------------------------------------------ C11-cxr
